@@ -93,3 +93,29 @@ func prepareHop(ctx *core.Ctx, module string) {
 		}), nil
 	})
 }
+
+// PrepareC04 / PrepareC05 regenerate Model/C04Gen.lean / C05Gen.lean: the built-in localhost names
+// the proxy starts with (`localhost: []string{…}` in http_proxy.go), to which the hosts-file aliases
+// are appended.
+func PrepareC04(ctx *core.Ctx) { prepareLocalhost(ctx, "C04Gen") }
+func PrepareC05(ctx *core.Ctx) { prepareLocalhost(ctx, "C05Gen") }
+
+func prepareLocalhost(ctx *core.Ctx, module string) {
+	prepare(ctx, module, "http_proxy.go (the built-in localhost names)", func(repo string) (string, error) {
+		f, err := Parse(repo, "http_proxy.go")
+		if err != nil {
+			return "", err
+		}
+		hs, err := f.FieldStringSlice("localhost")
+		if err != nil {
+			return "", err
+		}
+		var q []string
+		for _, h := range hs {
+			q = append(q, LeanStr(h))
+		}
+		return Module(module, "http_proxy.go", []string{
+			"def builtinLocalhost : List String := [" + strings.Join(q, ", ") + "]",
+		}), nil
+	})
+}
